@@ -8,7 +8,6 @@ import (
 
 	"github.com/robfig/soy/ast"
 	"github.com/robfig/soy/data"
-	"github.com/robfig/soy/parse"
 	"github.com/robfig/soy/parsepasses"
 	"github.com/robfig/soy/soyhtml"
 	"github.com/robfig/soy/template"
@@ -56,7 +55,7 @@ func parseFilesWire(fs []srcFile) (string, []*ast.SoyFileNode, error) {
 	parts := []string{"files"}
 	var nodes []*ast.SoyFileNode
 	for _, f := range fs {
-		n, err := parse.SoyFile(f.name, f.content)
+		n, err := soyFileSafe(f.name, f.content)
 		if err != nil {
 			return "", nil, err
 		}
@@ -70,7 +69,7 @@ func parseFilesWire(fs []srcFile) (string, []*ast.SoyFileNode, error) {
 func compileCheck(fs []srcFile) (*template.Registry, error) {
 	var registry = template.Registry{}
 	for _, f := range fs {
-		tree, err := parse.SoyFile(f.name, f.content)
+		tree, err := soyFileSafe(f.name, f.content)
 		if err != nil {
 			return nil, err
 		}
